@@ -21,10 +21,10 @@ type hasher struct {
 	objs  map[interface{}]int
 	m     *Machine
 	// freeze mode: collect the cells / map objects visited for the first time
-	collect    bool
-	newCells   []*Value
-	newObjs    []interface{}
-	regs       map[*region]int // canonical instance numbering of regions, by first visit
+	collect  bool
+	newCells []*Value
+	newObjs  []interface{}
+	regs     map[*region]int // canonical instance numbering of regions, by first visit
 }
 
 func (h *hasher) regAlias(r *region) int {
@@ -677,7 +677,6 @@ func (m *Machine) stateHash(cur *G) [32]byte {
 var dumpHash = os.Getenv("SYMGO_DUMPHASH")
 var dumpN int
 
-
 // ---- liveness (per function, computed once): a value is live at (block, pc) if some instruction
 // reachable from there uses it. Dead locals are not hashed, which merges equivalent states.
 
@@ -686,7 +685,7 @@ type liveInfo struct {
 	liveIn map[*ssa.BasicBlock]map[ssa.Value]bool
 }
 
-var liveCache sync.Map // *ssa.Function -> *liveInfo
+var liveCache sync.Map   // *ssa.Function -> *liveInfo
 var liveAtCache sync.Map // liveKey -> map[ssa.Value]bool
 
 type liveKey struct {
